@@ -38,8 +38,8 @@ def prop_targets(p, tier):
 # C17 time maps
 T("timemap", "timemap_props.cpp", selftest=True)
 PROPS["C17"] = {
-    "jobs": lambda tier: split("timemap", 320000 if tier == "quick" else 16000000, 16),
-    "floor_quick": 100000, "floor_thorough": 5000000,
+    "jobs": lambda tier: split("timemap", 320000, 16) if tier == "quick" else split("timemap", 64000000, 32),
+    "floor_quick": 100000, "floor_thorough": 20000000,
     "rule": "each case draws 6 optimisation variables tau (classes: 0/denormal, +-2^k, k/64, decimal up to 1e6, log-uniform small, "
             "extremes; each shifted by -3..3 ulp), a gap for the strict-increase pair, incoming gradients, a duration T in [1e-6,1e6] and a "
             "step 2^-k for the C1 test at the switch, all decoded from a rapidcheck-generated word tape; non-trivial = some |tau| < 2^-20, "
@@ -132,10 +132,10 @@ for d in C16_DIMS:
 
 
 def _c16_jobs(tier):
-    per = 16000 if tier == "quick" else 800000
+    per = 16000 if tier == "quick" else 3200000
     out = []
     for d in C16_DIMS:
-        out += split("opt_c16_d%d" % d, per, 4)
+        out += split("opt_c16_d%d" % d, per, 4 if tier == "quick" else 8)
         # exhaustive single placements: every configuration once (quick) or 16 data sets per configuration (thorough)
         tot = 3 * 3 * sum(1 + N + (N + 1) * d + 6 * d for N in range(1, 5))
         reps = 1 if tier == "quick" else 16
@@ -146,7 +146,7 @@ def _c16_jobs(tier):
 
 PROPS["C16"] = {
     "jobs": _c16_jobs,
-    "floor_quick": 30000, "floor_thorough": 1500000,
+    "floor_quick": 30000, "floor_thorough": 6000000,
     "rule": "three kinds of case, dimension 1..3 (one binary each): (a) a history of 1..6 initialisations on ONE optimizer (cubic/quintic/septic): 0..5 durations from a palette "
             "around the 1 ms threshold (1e-3, its two neighbours, 1e-3(1+-2^-30), 0, negative, denormal, 1e300, NaN, +-Inf), waypoint rows N+1 / 0 / N / N+2, start time finite or non-finite, "
             "0..3 non-finite values placed in waypoints and the six boundary vectors, through the durations overload, the time-point overload (oracle applied to the rounded differences) "
@@ -493,15 +493,15 @@ for _p, (_t, _n, _d, _rt, _len) in FUZZ.items():
 
 def fuzz_jobs(p, tier):
     t, n, d, rt, ln = FUZZ[p]
-    runs = 0 if tier == "quick" else 400000
-    k = 1 if tier == "quick" else 4
+    runs = 0 if tier == "quick" else (100000 if p == "C11" else 200000)   # C11 cases are histories of up to 6 rounds: ~250 executions/s
+    k = 1 if tier == "quick" else 8
     return [{"target": t, "fuzz": True, "prop": p, "runs": runs, "replay_target": rt, "corpus": "corpus/%s" % p, "max_len": 4 * ln, "cases": 0} for _ in range(k)]
 
 
 for _p in FUZZ:
     _old = PROPS[_p]["jobs"]
     PROPS[_p]["jobs"] = (lambda old, p: (lambda tier: old(tier) + fuzz_jobs(p, tier)))(_old, _p)
-    PROPS[_p]["rule"] += "; plus a libFuzzer front end on the same check function (quick: replay of the committed corpus; thorough: 4 campaigns of 4e5 runs from that corpus)"
+    PROPS[_p]["rule"] += "; plus a libFuzzer front end on the same check function (quick: replay of the committed corpus; thorough: 8 campaigns of 2e5 runs (C11: 1e5) from that corpus)"
 
 # generator features added after the third and fourth seeding rounds (DESIGN.md s5, s6.1); each is a labelled class in class_counters
 _ADDED = {
